@@ -138,14 +138,25 @@ struct C22 : Monitor {
 
 int main(int argc, char** argv)
 {
-    ps::Opts o;
-    o.classes = {"N", "N3", "NY", "NL", "NQ", "C", "R", "PK", "M", "MC", "I", "X", "T", "P"};
-    o.fees = "lmh";
-    o.child_fees = "h";
-    o.thr = "ce";
-    o.pk_parent = "l"; o.pk_child = "k";
-    o.max_idx = 2;
-    o.depth_quick = 3; o.depth_thorough = 4;
     C22 mon;
-    return ps::Main(argc, argv, "C22", {{"", o}}, mon);
+    return ps::Main(argc, argv, "C22", [] {
+    ps::Opts o;
+    if (vx::thorough()) {
+        o.classes = {"N", "N3", "NY", "NL", "NQ", "C", "R", "PK", "M", "MC", "I", "X", "T", "P"};
+        o.fees = "lh";
+        o.child_fees = "h";
+        o.thr = "ce";
+        o.max_idx = 2;
+    } else {
+        o.classes = {"N", "NY", "NL", "NQ", "C", "R", "PK", "M", "MC", "I", "X", "T", "P"};
+        o.fees = "h";
+        o.child_fees = "h";
+        o.thr = "e";
+        o.max_idx = 1;
+        o.prio_minus = false; o.prio_next = false;
+    }
+    o.pk_parent = "l"; o.pk_child = "k";
+    o.depth_quick = 3; o.depth_thorough = 4;
+    return ps::Configs{{"", o}};
+    }, mon);
 }
